@@ -98,6 +98,11 @@ func externalIsTop(f *ssa.Function) bool {
 		switch f.Name() {
 		case "Error", "String", "GoString", "Unwrap":
 			return false
+		case "Position", "Message":
+			// participle.Error observers
+			if strings.Contains(name, "github.com/alecthomas/participle/v2") {
+				return false
+			}
 		}
 	}
 	if externalPureFuncs[name] {
@@ -688,10 +693,31 @@ func (w *World) computeModsImpl(withOverrides bool) *ModInfo {
 							}
 						}
 					}
+					if de := w.decodeEffect(cal, siteCommon(e.Site), mi); de != nil {
+						if ms.union(de) {
+							changed = true
+						}
+						continue
+					}
 					if externalIsTop(cal) && !ms.Top {
 						ms.Top = true
 						ms.Fams = map[string]Sort{}
 						changed = true
+					}
+					// a library function that is handed function values may call them
+					if e.Site != nil && !ms.Top && hasFuncArg(e.Site.Common()) {
+						targets, ok := funcArgTargets(e.Site.Common(), f, w)
+						if !ok {
+							ms.Top = true
+							ms.Fams = map[string]Sort{}
+							changed = true
+						} else {
+							for _, t := range targets {
+								if tm, ok := mi.mods[t]; ok && mi.unionFiltered(ms, tm, f, t) {
+									changed = true
+								}
+							}
+						}
 					}
 				}
 			}
@@ -941,4 +967,155 @@ func (w *World) stubAssigns(cal *ssa.Function) map[string]Sort {
 		}
 	}
 	return out
+}
+
+func siteCommon(ci ssa.CallInstruction) *ssa.CallCommon {
+	if ci == nil {
+		return nil
+	}
+	return ci.Common()
+}
+
+// decodeEffect: the module-visible effect of a reflection-based decoder call whose target type is known at the call
+// site (yaml.v3 Decode / DecodeWithOptions / Unmarshal with a `&x` argument): the decoder writes the object graph it
+// is given (every field, element, box and map of every type reachable from the static type of x) and calls the
+// UnmarshalYAML methods of the module; it writes nothing else that module code can observe (library fact, listed in
+// evidence). nil when the call is not of that shape.
+func (w *World) decodeEffect(cal *ssa.Function, c *ssa.CallCommon, mi *ModInfo) *ModSet {
+	if c == nil || cal == nil {
+		return nil
+	}
+	if strings.Contains(cal.String(), "github.com/alecthomas/participle/v2.Parser[") && (strings.HasPrefix(cal.Name(), "ParseString") || strings.HasPrefix(cal.Name(), "ParseBytes")) {
+		// participle builds the syntax tree in objects it allocates itself and calls only the capture methods and
+		// the custom parse functions of the grammar, all of which receive the lexer (library fact, listed in evidence)
+		ms := &ModSet{Fams: map[string]Sort{}, NonFresh: map[string]bool{}}
+		for _, f := range w.AllFns {
+			if !w.InModule(f) {
+				continue
+			}
+			for _, p := range f.Params {
+				if typeKey(p.Type()) == "*github.com/alecthomas/participle/v2/lexer.PeekingLexer" {
+					if fm, ok := mi.mods[f]; ok {
+						ms.union(fm)
+					}
+					break
+				}
+			}
+		}
+		return ms
+	}
+	argIdx := -1
+	if os.Getenv("GOVC_DEBUG_DECODE") != "" && strings.Contains(cal.String(), "yaml.v3") {
+		fmt.Fprintf(os.Stderr, "DECODE? %q\n", cal.String())
+	}
+	switch cal.String() {
+	case "(*gopkg.in/yaml.v3.Decoder).Decode", "(*gopkg.in/yaml.v3.Node).Decode", "(*gopkg.in/yaml.v3.Node).DecodeWithOptions":
+		argIdx = 1
+	case "gopkg.in/yaml.v3.Unmarshal":
+		argIdx = 1
+	case "gopkg.in/yaml.v3.NewDecoder", "(*gopkg.in/yaml.v3.Decoder).KnownFields":
+		return &ModSet{Fams: map[string]Sort{}}
+	default:
+		return nil
+	}
+	if argIdx >= len(c.Args) {
+		return nil
+	}
+	mk, ok := c.Args[argIdx].(*ssa.MakeInterface)
+	if !ok {
+		return nil
+	}
+	pt, ok := under(mk.X.Type()).(*types.Pointer)
+	if !ok {
+		return nil
+	}
+	ms := &ModSet{Fams: map[string]Sort{}, NonFresh: map[string]bool{}}
+	fams := map[string]Sort{}
+	seen := map[string]bool{}
+	if !reflectWriteFams(pt.Elem(), fams, seen, true) {
+		return nil
+	}
+	for f, so := range fams {
+		ms.add(f, so)
+		ms.markNonFresh(f)
+	}
+	for _, f := range w.AllFns {
+		if f.Name() == "UnmarshalYAML" && f.Signature.Recv() != nil && w.InModule(f) {
+			// only the custom unmarshalers of types that occur in the target's object graph can be called
+			rt := f.Signature.Recv().Type()
+			ok := seen[typeKey(types.Unalias(rt))]
+			if pt, isPtr := under(rt).(*types.Pointer); isPtr && seen[typeKey(types.Unalias(pt.Elem()))] {
+				ok = true
+			}
+			if !ok {
+				continue
+			}
+			if fm, ok := mi.mods[f]; ok {
+				ms.union(fm)
+			}
+		}
+	}
+	return ms
+}
+
+// reflectWriteFams collects the families of every cell in an object graph of static type t. false when the graph
+// can hold something the analysis cannot enumerate (a non-empty interface, a channel, a function).
+func reflectWriteFams(t types.Type, out map[string]Sort, seen map[string]bool, top bool) bool {
+	k := typeKey(types.Unalias(t))
+	if seen[k] {
+		return true
+	}
+	seen[k] = true
+	switch u := under(t).(type) {
+	case *types.Basic:
+		if top {
+			boxStoreFams(t, out)
+		}
+		return true
+	case *types.Pointer:
+		if top {
+			boxStoreFams(t, out)
+		}
+		if _, isStruct := under(u.Elem()).(*types.Struct); !isStruct {
+			boxStoreFams(u.Elem(), out)
+		}
+		return reflectWriteFams(u.Elem(), out, seen, false)
+	case *types.Struct:
+		structStoreFams(t, out)
+		for i := 0; i < u.NumFields(); i++ {
+			if !reflectWriteFams(u.Field(i).Type(), out, seen, false) {
+				return false
+			}
+		}
+		return true
+	case *types.Slice:
+		if top {
+			boxStoreFams(t, out)
+		}
+		elemStoreFams(u.Elem(), out)
+		return reflectWriteFams(u.Elem(), out, seen, false)
+	case *types.Array:
+		elemStoreFams(u.Elem(), out)
+		return reflectWriteFams(u.Elem(), out, seen, false)
+	case *types.Map:
+		if top {
+			boxStoreFams(t, out)
+		}
+		mapFams(u, out)
+		return reflectWriteFams(u.Key(), out, seen, false) && reflectWriteFams(u.Elem(), out, seen, false)
+	case *types.Interface:
+		if top {
+			boxStoreFams(t, out)
+		}
+		if u.NumMethods() == 0 {
+			// decoded into map[string]interface{}, []interface{} and scalars, all freshly allocated
+			return true
+		}
+		// a module interface field is filled by the owner's UnmarshalYAML (its effect is added separately)
+		return true
+	}
+	if os.Getenv("GOVC_DEBUG_DECODE") != "" {
+		fmt.Fprintf(os.Stderr, "REFLECT-UNSUPPORTED %s\n", t)
+	}
+	return false
 }
